@@ -44,6 +44,8 @@ class Builder:
         self.leaves: Dict[str, Any] = {}
         self.mods: Dict[str, Any] = {}
         self.roles: Dict[str, Any] = {}
+        self.foreign: Dict[Any, Any] = {}
+        self.keep: List[Any] = []
 
     # ---- definitions ----
     def bundle(self, name):
@@ -106,7 +108,7 @@ class Builder:
         h = self.h
         k = t["k"]
         if k == "sig":
-            return M.get(t["n"]) if not t.get("foreign") else self.foreign[t["foreign"]]
+            return M[t["n"]]
         if k == "slice":
             return self.term(M, t["of"], ncs, insts)[py_index(t["idx"])]
         if k == "cat":
@@ -117,10 +119,12 @@ class Builder:
             if t["id"] not in ncs:
                 ncs[t["id"]] = h.NoConn(name=t["name"] or None)
             return ncs[t["id"]]
+        if k == "fsig":
+            return self.foreign_signal(t)
         if k == "bund":
-            return M.get(t["n"])
+            return M[t["n"]]
         if k == "bref":
-            x = M.get(t["root"])
+            x = M[t["root"]]
             for seg in t["path"]:
                 x = getattr(x, seg)
             return x
@@ -131,19 +135,53 @@ class Builder:
             return h.AnonymousBundle(**mem)
         raise ValueError(k)
 
+    def foreign_signal(self, t):
+        """A signal owned by nobody ("orphan") or by another module (named by t["owner"])."""
+        h = self.h
+        key = (t["owner"], t["n"])
+        if key not in self.foreign:
+            sig = h.Signal(name=t["n"], width=t["w"])
+            if t["owner"] != "orphan":
+                other = h.Module(name=t["owner"])
+                other.add(sig)
+                self.keep.append(other)
+            self.foreign[key] = sig
+        return self.foreign[key]
+
     def module(self, name):
         if name in self.mods:
             return self.mods[name]
         h = self.h
-        md = self.D["mods"][name]
-        M = h.Module(name=name)
+        if self.style == "gen":
+            # the module is made inside a generator body (procedurally), as generated designs are
+            outer = self
+
+            def body(params):
+                return outer._module_body(name, "proc", anonymous=True)
+            body.__name__ = self.D["mods"][name].get("name", name)
+            body.__annotations__ = {"params": h.HasNoParams, "return": h.Module}
+            M = h.generator(body)(h.NoParams)
+        else:
+            M = self._module_body(name, self.style)
         self.mods[name] = M
+        return M
+
+    def _module_body(self, name, style, anonymous=False):
+        h = self.h
+        md = self.D["mods"][name]
+        mname = md.get("name", name)
+        ns = {}           # local namespace: name -> object, in declaration order
+        M = None
+        if style != "class":
+            M = h.Module(name=None if (anonymous or mname == "") else mname)
+            if not anonymous:
+                self.mods[name] = M      # registered before its instances are made, so that circular designs can be written
         for s in md["sigs"]:
             kw = {}
             if s["port"]:
                 kw["vis"] = h.signal.Visibility.PORT
                 kw["direction"] = getattr(h.signal.PortDir, s.get("dir", "NONE"))
-            M.add(h.Signal(name=s["n"], width=s["w"], **kw))
+            ns[s["n"]] = h.Signal(width=s["w"], **kw)
         for b in md["bundles"]:
             kw = {"port": b["port"]}
             if b.get("role"):
@@ -151,32 +189,37 @@ class Builder:
             bi = self.bundle(b["of"])(**kw)
             if b.get("flipped"):
                 bi = h.flipped(bi) if b.get("flipstyle") == "fn" else self.bundle(b["of"])(flipped=True, **kw)
-            M.add(bi, name=b["n"])
+            ns[b["n"]] = bi
         insts = {}
         for i in md["insts"]:
             tgt = self.target(i["of"])
             if i["kind"] == "inst":
-                io = h.Instance(of=tgt, name=i["n"])
+                io = h.Instance(of=tgt)
             elif i["kind"] == "array":
-                io = h.InstanceArray(of=tgt, n=i["arr"], name=i["n"])
+                io = h.InstanceArray(of=tgt, n=i["arr"])
             elif i["kind"] == "pair":
-                io = h.Pair(of=tgt, name=i["n"])
+                io = h.Pair(of=tgt)
             else:
                 raise ValueError(i["kind"])
-            M.add(io)
+            ns[i["n"]] = io
             insts[i["n"]] = io
+        if style != "class":
+            for n, obj in ns.items():
+                M.add(obj, name=n)
         ncs = {}
         for i in md["insts"]:
             io = insts[i["n"]]
-            if self.style == "call":
-                io(**{c["p"]: self.term(M, c["t"], ncs, insts) for c in i["conns"]})
+            if style in ("call", "class"):
+                io(**{c["p"]: self.term(ns, c["t"], ncs, insts) for c in i["conns"]})
             else:
                 for n, c in enumerate(i["conns"]):
-                    v = self.term(M, c["t"], ncs, insts)
-                    if self.style == "assign" or (self.style == "mixed" and n % 2):
+                    v = self.term(ns, c["t"], ncs, insts)
+                    if style == "assign" or (style == "mixed" and n % 2):
                         setattr(io, c["p"], v)
                     else:
                         io.connect(c["p"], v)
+        if style == "class":
+            M = h.module(type(mname, (), dict(ns)))
         return M
 
     def build(self):
